@@ -3,7 +3,7 @@
    stack_spiller.py / _stack_reorder tied by exact-output differential + EVM execution. *)
 From Coq Require Import ZArith List Bool.
 From Verif Require Import Base.PyInt C14S.PyList C14S.StackSpec C14S.StackSpecProofs C14S.GenStackModel C14S.TieStackModel
-  C14S.Spill C14S.SpillProofs C14S.SpillInv C14S.ReorderProofs C14S.ReorderFull.
+  C14S.Spill C14S.SpillProofs C14S.SpillInv C14S.ReorderProofs C14S.ReorderFull C14S.CallProofs.
 Import ListNotations.
 Open Scope Z_scope.
 
@@ -147,6 +147,34 @@ Theorem stack_reorder_full : forall ops a m s d,
     forall mm, mem_ok mm d -> exists mm', run new (view m, mm) = Some (view m', mm').
 Proof. exact stack_reorder_full_thm. Qed.
 Print Assumptions stack_reorder_full.
+
+(* ---- internal-call convention ---- *)
+(* frame rule: code that runs on a stack runs identically on any extension of it below: the callee cannot read or
+   write the caller's frame (every DUP/SWAP/POP it executes is within its own stack map) *)
+Theorem run_frame : forall code s mm s' mm' below,
+  run code (s, mm) = Some (s', mm') -> run code (s ++ below, mm) = Some (s' ++ below, mm').
+Proof. exact run_frame_thm. Qed.
+Print Assumptions run_frame.
+
+(* invoke_ret_correct: for every argument count (any stack height; deep and spilled arguments included) the callee is
+   entered with its i-th param = the caller's i-th argument and the return pc on top; whatever code the callee runs,
+   if it is correct on its own frame and ends on exactly (return values, return pc), then after the return JUMP the
+   caller's stack is (stack below the call frame, unchanged) ++ (return values in declared order) and the return pc has
+   been consumed by that JUMP. *)
+Theorem invoke_ret_correct : forall args a m s d RL rets body,
+  args <> [] -> live_inv s d -> NoDup args ->
+  (forall x, In x args -> In x m \/ sp_lookup d x <> None) ->
+  (forall mm, exists mm', run body (view (args ++ [RL]), mm) = Some (view (rets ++ [RL]), mm')) ->
+  exists new m' s' d' cost,
+    stack_reorder Z.eqb false args a m s d = Ok (a ++ new, m', s', d', cost) /\
+    (forall mm, mem_ok mm d -> exists mm1,
+       run (new ++ [APushLabel RL]) (view m, mm) = Some (view (args ++ [RL]) ++ view (st_pop m' (zlen args)), mm1)) /\
+    (forall mm, mem_ok mm d -> exists mm2 s2,
+       run (new ++ [APushLabel RL] ++ body) (view m, mm) = Some (s2, mm2) /\
+       jump_to RL s2 = Some (view (invoke_map m' (length args) rets))) /\
+    live_inv s' d' /\ forallb depth_ok new = true.
+Proof. exact invoke_ret_correct_thm. Qed.
+Print Assumptions invoke_ret_correct.
 
 (* non-vacuity: a 40-deep swap and a 30-deep dup on concrete stacks *)
 Definition big := map Z.of_nat (seq 1 41).
